@@ -11,7 +11,26 @@
 (* brought into a canonical key order.                                                            *)
 EXTENDS SyncLaw, Batch
 
+(* api = "history": one line is a whole history of calls / derivations on ONE presync-decorated   *)
+(* function object (o.dec = its decoration, o.hist = the steps, o.out.steps[n] = what the decorated *)
+(* function received at step n); the policy in force at each call is the one of the state machine  *)
+(* of SyncLaw.tla (decoration, call-time overrides for that call only, derived objects).            *)
 CP(o) == IF o.api = "reindex" THEN NoCols ELSE o.cols
+\* the observed calls `got` are exactly the calls of S (up to the named deviation PseudoSeries)
+Explains(S, got) == (\A w \in S : \E g \in got : ShapeOnly(g) = ShapeOnly(w) /\ TreeMatches(w, g))
+                    /\ (\A g \in got : \E w \in S : ShapeOnly(g) = ShapeOnly(w) /\ TreeMatches(w, g))
+GotAt(o, n) == LET cs == o.out.steps[n].calls IN {cs[i] : i \in 1..Len(cs)}
+ExplainedUnder(o, n, p) == \E S \in CallOutcomes(o.tree, p) : Explains(S, GotAt(o, n))
+HistVerdict(o) ==
+    LET calls == {n \in 1..Len(o.hist) : o.hist[n].op = "call"}
+        bad == {n \in calls : o.out.steps[n].kind # "calls" \/ ~ExplainedUnder(o, n, InForce(o.dec, o.hist, n))}
+    IN  IF bad = {} THEN ""
+        ELSE LET n == CHOOSE x \in bad : \A y \in bad : x <= y IN
+             IF o.out.steps[n].kind # "calls" THEN "presync_history_raised"
+             \* would the overrides of an earlier call, had they stayed in force, explain what was received?
+             ELSE IF \E k \in calls : k < n /\ ExplainedUnder(o, n, Effective(InForce(o.dec, o.hist, k), o.hist[n].ov))
+             THEN "presync_policy_leaked"
+             ELSE "presync_history"
 Verdict(o) ==
     IF \E i \in 1..Len(TsLeaves(o.tree)) : ~WellFormed(TsLeaves(o.tree)[i]) THEN "malformed_observation"
     ELSE IF o.after # o.tree THEN "operand_changed"
@@ -26,14 +45,13 @@ Verdict(o) ==
            [] o.api = "presync" ->
                 LET want == PresyncOutcomesX(o.tree, o.pol, o.m, o.cols)
                     got  == {o.out.calls[i] : i \in 1..Len(o.out.calls)}
-                    ok(S) == (\A w \in S : \E g \in got : ShapeOnly(g) = ShapeOnly(w) /\ TreeMatches(w, g))
-                             /\ (\A g \in got : \E w \in S : ShapeOnly(g) = ShapeOnly(w) /\ TreeMatches(w, g))
-                IN  IF \E S \in want : ok(S) THEN ""
+                IN  IF \E S \in want : Explains(S, got) THEN ""
                     ELSE IF Cardinality(got) = 1 /\ MultiLeaves(o.tree) = <<>>
                          THEN "presync_" \o WhyNotX(Collapse(SyncX(o.tree, o.pol, o.m, NoCols, "row")), Collapse(CHOOSE g \in got : TRUE))
                          ELSE IF \A g \in got : ShapeOnly(Reorder(g, o.tree)) = ShapeOnly(o.tree) /\ ShapeOnly(g) # ShapeOnly(o.tree)
                          THEN "presync_dict_order"
                          ELSE "presync_calls"
+           [] o.api = "history" -> HistVerdict(o)
            [] OTHER -> "unknown_api"
 
 Init == BatchInit
